@@ -3,18 +3,29 @@
   granularity of the Go calls (`Innovations()` snapshot · `NextNodeId()` · `NextInnovationNumber()` · `StoreInnovation`),
   and still every genome is well-formed and C03's consistency holds, for EVERY scheduler.
 
-  Model: Model/ParEpoch.lean (`Prog`, `mutateAddLinkP` / `mutateAddNodeP` / `mutateConnectSensorsP`, `pstep`, `runSched`).
-    `nonatomic_eq_atomic`     run back to back on one registry, the non-atomic mutators ARE the atomic model functions
-                              of Model/Mutate.lean (which are co-simulated bit-exactly with the Go code)
-    `regInv_frame`, `invB_frame`, `regInv_of_invB`
+  Model: Model/ParEpoch.lean — `Prog` (a thread-local computation interrupted by registry operations), the non-atomic
+  `mutateAddLinkP` / `mutateAddNodeP` / `mutateConnectSensorsP`, the species goroutine `reproduceSpeciesP`, `pstep` /
+  `runSched` (any scheduler list), `parEpoch` (prepare · goroutines under a schedule · arrival in any order · speciate ·
+  finalize).
+    `nonatomic_eq_atomic`, `goroutine_eq_sequential`
+                              run back to back on one registry, the non-atomic mutators / the species goroutine ARE the
+                              atomic model functions of Model/Mutate.lean / Model/Epoch.lean (co-simulated bit-exactly)
+    `regInv_frame`, `invB_frame`, `regInv_of_invB`   (Proofs/ParFrame.lean)
                               the registry hypotheses of the sequential theorems (C01 `RegInv`, C03 `InvB`) are stable
                               under what the other threads do (append records of numbers they own, raise the counters)
+    `sched_sound`             (Proofs/ParFrameSound.lean) rely/guarantee: the global invariant + every thread's obligation
+                              survive every step of every scheduler
     `par_mutation_wf`         for every scheduler list, any number of threads each mutating its own genome: whatever a
                               thread has returned is well-formed and keeps the IO nodes, trait ids, modules, first gene
     `par_mutation_consistent` … and when all have returned: C03's `Inv` for the final registry and the pool with all
                               results added (one number = one link, one node id = one role, records consistent and
                               pairwise distinct in their numbers, everything at most the counters), and C01's `RegInv`
                               for every genome
+    `par_species_quota`       every species goroutine delivers exactly its quota of well-formed babies, any schedule
+    `parEpoch_guarantees`     a whole epoch of the parallel executor: size / partition / unique ids (C02), all genomes
+                              `WFT` and `PoolOk` (C01), `PopC03` for the extended history (C03) - every schedule, every
+                              order of arrival; all invariants re-established
+    `parEpochs_guarantees`    any number of parallel epochs with arbitrary evaluations in between
     `consecutive_breaks`      counterexample: a mutator that assumes its two numbers are consecutive (equal to the
                               atomic model when run alone!) makes one number denote two connections under an interleaving
 -/
@@ -36,6 +47,13 @@ variable {W : Type} [Scalar W]
     rest of the random stream, same error. -/
 theorem nonatomic_eq_atomic (k : MutKind W) (g : Genome W) (reg : Reg W) (rs : List Nat) :
     packM ((k.prog g rs).run reg) = k.atomic g reg rs := mutKind_run k g reg rs
+
+/-- **the species goroutine run alone = `Species.reproduce` of the sequential model** (same babies, registry, allocation
+    counter, rest of the random stream, error) -/
+theorem goroutine_eq_sequential (o : EpochOpts W) (generation : Int) (s : Species W) (sorted : List (Species W)) (reg : Reg W)
+    (nextUid : Nat) (rs : List Nat) :
+    packB ((reproduceSpeciesP o generation s sorted reg nextUid rs).run reg) = reproduceSpecies o generation s sorted reg nextUid rs :=
+  reproduceSpeciesP_run o generation s sorted reg nextUid rs
 
 /-- `Prog.run` is "one `Prog.step` after the other" -/
 theorem run_step {α : Type} (p : Prog W α) (reg : Reg W) : (p.step reg).1.run (p.step reg).2 = p.run reg := by
@@ -236,6 +254,17 @@ theorem allDone_of_B (st : PState W (MRes W)) (h : allDoneB st = true) : AllDone
   | store i k => simp [Prog.result?] at this
 
 /-! ### the whole epoch of the parallel executor -/
+
+/-- **C16: every species goroutine delivers exactly its quota of well-formed babies** - for every scheduler list and all
+    random numbers: whenever goroutine `t` has returned `babies`, their number is the `expectedOffspring` of species `t`
+    and every baby genome is well-formed. -/
+theorem par_species_quota (X H : List (Genome W)) (o : EpochOpts W) (generation : Int) (p1 : Pop W) (ex : ExecState)
+    (streams : List (List Nat)) (sched : List Nat) (hP1 : PoolOk p1.reg (X ++ genomesOfPop p1)) (hc1 : PopC03 H p1)
+    (hX : ∀ g ∈ X, GenomeIn H g) (t : Nat) (bs : List (Org W)) (uid : Nat) (rs' : List Nat)
+    (hdone : (runSched ({ reg := p1.reg, threads := speciesThreads o generation p1 ex streams } : PState W (BRes W)) sched).threads[t]?
+        = some (Prog.done (Except.ok ((bs, uid), rs')))) :
+    ∃ s, p1.species[t]? = some s ∧ bs.length = s.expectedOffspring.toNat ∧ ∀ b ∈ bs, WFT b.genome :=
+  parSpecies_delivers X H o generation p1 ex streams sched hP1 hc1 hX t bs uid rs' hdone
 
 open GoNeat.C02 in
 /-- **C16: an epoch of the parallel executor gives the guarantees of the sequential one - for every schedule.**
